@@ -1,0 +1,81 @@
+//! Hooks for an external verification harness. Compiled only with `--cfg icy_engine_verif`;
+//! without that cfg nothing of this module exists and no behaviour changes.
+//!
+//! Sixel decode gate: every background sixel decode spawned by the ANSI parser takes a ticket in the
+//! spawning thread (ticket order = arrival order) and, while the gate is armed, waits at the start of the
+//! decode until the harness releases that ticket. This lets a harness decide in which order decodes finish.
+
+use std::collections::HashSet;
+use std::ops::{Index, RangeFrom};
+use std::sync::atomic::{AtomicBool, AtomicU64, Ordering};
+use std::sync::{Condvar, Mutex};
+
+static ARMED: AtomicBool = AtomicBool::new(false);
+static NEXT_TICKET: AtomicU64 = AtomicU64::new(1);
+static RELEASED: Mutex<Option<HashSet<u64>>> = Mutex::new(None);
+static CV: Condvar = Condvar::new();
+
+thread_local! {
+    static LAST_TICKET: std::cell::Cell<Option<u64>> = const { std::cell::Cell::new(None) };
+}
+
+/// Arm or disarm the gate. Disarming lets every waiting decode continue.
+pub fn sixel_gate_arm(on: bool) {
+    ARMED.store(on, Ordering::SeqCst);
+    let _g = RELEASED.lock().unwrap_or_else(std::sync::PoisonError::into_inner);
+    CV.notify_all();
+}
+
+fn take_ticket() -> u64 {
+    let t = NEXT_TICKET.fetch_add(1, Ordering::SeqCst);
+    LAST_TICKET.with(|c| c.set(Some(t)));
+    t
+}
+
+/// Ticket of the decode most recently spawned from the calling thread.
+pub fn sixel_last_ticket() -> Option<u64> {
+    LAST_TICKET.with(std::cell::Cell::get)
+}
+
+/// Let the decode holding `ticket` run.
+pub fn sixel_gate_release(ticket: u64) {
+    let mut g = RELEASED.lock().unwrap_or_else(std::sync::PoisonError::into_inner);
+    g.get_or_insert_with(HashSet::new).insert(ticket);
+    CV.notify_all();
+}
+
+fn wait(ticket: u64) {
+    let mut g = RELEASED.lock().unwrap_or_else(std::sync::PoisonError::into_inner);
+    loop {
+        if !ARMED.load(Ordering::SeqCst) {
+            return;
+        }
+        if let Some(set) = g.as_mut() {
+            if set.remove(&ticket) {
+                return;
+            }
+        }
+        g = CV.wait(g).unwrap_or_else(std::sync::PoisonError::into_inner);
+    }
+}
+
+/// The DCS payload handed to a decode thread; indexing it (which the decode closure does first) passes the gate.
+pub struct GatedString {
+    s: String,
+    ticket: u64,
+}
+
+impl GatedString {
+    /// Must be called in the thread that spawns the decode.
+    pub fn new(s: String) -> Self {
+        Self { s, ticket: take_ticket() }
+    }
+}
+
+impl Index<RangeFrom<usize>> for GatedString {
+    type Output = str;
+    fn index(&self, r: RangeFrom<usize>) -> &str {
+        wait(self.ticket);
+        &self.s[r]
+    }
+}
